@@ -135,6 +135,7 @@ def regen_facts():
         r = subprocess.run(['go', 'run', '.', core.REPO], cwd=tool, env=env, capture_output=True, text=True)
         if r.returncode != 0:
             return False, 'facts extractor failed: ' + (r.stdout + r.stderr)[-2000:]
+        FACT_FALLBACKS[:] = [l.split('model default kept:', 1)[1].strip() for l in r.stderr.split('\n') if 'model default kept:' in l]
         old = open(out).read() if os.path.exists(out) else None
         if old != r.stdout:
             with open(out, 'w') as f:
@@ -143,8 +144,13 @@ def regen_facts():
     return False, None
 
 
-def proof_step(pid, theorems):
-    """build the property module and audit the axioms of its theorems.
+# facts the extractor could not read off the source on this run (the model default was kept; see tools/facts/main.go)
+FACT_FALLBACKS = []
+
+
+def proof_step(pid, theorems, tier='quick'):
+    """build the property module and audit the axioms of its theorems (thorough tier: also re-check the compiled module
+    with leanchecker, the toolchain's independent checker).
     returns dict(ok=[...], broken=[(name, reason)], axioms={name: [...]}, log=str)"""
     res = {'ok': [], 'broken': [], 'axioms': {}, 'log': ''}
     changed, ferr = regen_facts()
@@ -192,6 +198,11 @@ def proof_step(pid, theorems):
             res['broken'].append((t, 'depends on axioms %s' % bad))
         else:
             res['ok'].append(t)
+    if tier == 'thorough':
+        r = subprocess.run(['lake', 'env', 'leanchecker', mod], cwd=LEAN_DIR, capture_output=True, text=True)
+        res['leanchecker'] = 'ok' if r.returncode == 0 else 'failed'
+        if r.returncode != 0:
+            res['broken'].append((mod, 'leanchecker rejects the compiled module: ' + (r.stdout + r.stderr)[-600:]))
     return res
 
 
@@ -215,7 +226,7 @@ def run_check(pid, tier, seed):
     t0 = time.time()
     try:
         theorems = getattr(mod, 'THEOREMS', [])
-        proof = proof_step(pid, theorems)
+        proof = proof_step(pid, theorems, tier)
         for name, reason in proof['broken']:
             ctx.problem('proof', 'theorem %s no longer checks: %s' % (name, reason[:600]))
         if not os.path.exists(core.HMDRIVER):
@@ -294,6 +305,8 @@ def run_check(pid, tier, seed):
             'trusted_base': ['Lean 4.33.0 kernel', 'axioms: ' + ', '.join(sorted({a for v in proof['axioms'].values() for a in v}) or ['none']),
                              'hand-written model tied to /repo by tools/facts (constants) and the correspondence check (behaviour)',
                              'Lean compiler/runtime for hmdriver; Go toolchain; tools/hv (generators, comparators)'],
+            'leanchecker': proof.get('leanchecker', 'not run (thorough tier only)'),
+            'facts_not_regenerated': list(FACT_FALLBACKS),
             'theorems': {t: proof['axioms'].get(t) for t in theorems},
             'theorems_broken': [b[0] for b in proof['broken']],
             'correspondence_ops': {k: {'compared': v[0], 'disagreed': v[1]} for k, v in ctx.ops.items()},
